@@ -82,6 +82,48 @@ CHECKS = {
         note="Trusted: the generator's binding table; the printer's span table.",
         design="5/C08",
     ),
+    "C06": dict(
+        category="exploration",
+        technique="runtime monitoring: differential monitor across N fresh oal-cli processes (different hash seeds each) with byte comparison of the target files, and across repeated in-process compilations incl. a second thread",
+        text="Generated programs biased to what can leak map order are compiled by the real CLI in 8 (thorough 32) fresh processes and the YAML bytes compared; in-process, A, B, A and A on a second thread must give identical bytes.",
+        note="Byte equality is the oracle; nothing is normalised.",
+        design="5/C06",
+    ),
+    "C13": dict(
+        category="exploration",
+        technique="runtime monitoring: differential monitor over three front ends (real oal-cli process, playground entry point, language-server cycle) plus a file-system monitor (bytes/inode/mtime of a sentinel target; strace in the thorough tier) and a stderr report-shape monitor",
+        text="Workspaces with sources accepted and rejected at each phase (error injected in the main or an imported module), options vs config file, with/without base: exit status, located report, untouched sentinel target on failure, complete target equal to the library output on success, agreement with the playground and with the language server's diagnostics.",
+        note="An import cycle has no source position; its report only needs the failure exit and message. Configuration failures need no location.",
+        design="5/C13",
+    ),
+    "C14": dict(
+        category="exploration",
+        technique="runtime monitoring: field-wise differential monitor of the merged output against the base (as the tool's model represents it, and raw when the model round-trips it) and against the base-less output; a slice through the real oal-cli -b",
+        text="Generated base documents over the OpenAPI object model combined with generated programs: everything outside paths and components.schemas must equal the base, paths and schema components must equal the base-less output up to generated names.",
+        note="Bases are closed w.r.t. what survives the merge. openapiv3's model is the trusted representation at level 1.",
+        design="5/C14",
+    ),
+    "C15": dict(
+        category="exploration",
+        technique="runtime monitoring: offline comparison of two recorded JSON-RPC sessions of the real oal-lsp (history server vs fresh server handed the final texts), client texts from an independent UTF-16 document model, liveness polling, logical (request/response) synchronisation",
+        text="Random protocol-valid histories of didOpen/didChange/didClose with full and incremental changes at arbitrary UTF-16 ranges, bursts and interleaved requests over a 4-file workspace; at checkpoints the last published diagnostics per URI and the answers to definition/references/prepareRename/rename probes must equal those of a fresh server.",
+        note="Files on disk stay fixed during a history. Timing never decides a verdict.",
+        design="5/C15",
+    ),
+    "C17": dict(
+        category="exploration",
+        technique="runtime monitoring: reference-model monitor (generator's span and binding tables) over a full position sweep of definition/references requests against the real oal-lsp process",
+        text="For generated multi-module workspaces every UTF-16 position of every line is sent as textDocument/definition and textDocument/references to the real server; answers must be exactly the binder location / the set of bound uses, and empty off identifiers.",
+        note="Lenient zones where the statement does not decide: right after an identifier, qualifier and dot, binder tokens.",
+        design="5/C17",
+    ),
+    "C18": dict(
+        category="exploration",
+        technique="runtime monitoring: end-to-end monitor of prepareRename/rename against the real oal-lsp with client-side edit application and compile-and-compare of both versions through the real oal-cli; liveness monitor",
+        text="At the start and middle of every identifier occurrence (and random positions) of generated workspaces, wherever prepareRename offers a range the identifier is renamed to a fresh name; edits must not overlap and must each replace exactly the old name, the edited sources must compile to the same canonical document, and the server must stay alive.",
+        note="For @names the expected document is the original with that component renamed.",
+        design="5/C18",
+    ),
     "C16": dict(
         category="exploration",
         technique="runtime monitoring: reference-model monitor over an exhaustively enumerated input space (all texts up to a length bound, all offsets/positions) through the cfg-guarded conversion hooks",
